@@ -1,18 +1,583 @@
-//! C01 — not built yet (stub).
+//! C01 — cell content survives save and reload (both writers), bounded-exhaustive over value x position alphabets.
 use crate::common::*;
+use crate::dump::*;
+use crate::e1::*;
 use crate::pool::*;
-use serde_json::Value;
+use serde_json::{json, Value};
+use umya_spreadsheet::*;
 
 pub fn entry() -> crate::Entry {
     crate::Entry { id: "C01", run, space, replay }
 }
-pub fn space(_tier: Tier, _id: &str) -> Option<Box<dyn Space>> {
-    None
+
+pub const ATOMS: [(&str, &str); 19] = [
+    ("plain", "a"), ("amp", "&"), ("lt", "<"), ("gt", ">"), ("dquote", "\""), ("apos", "'"), ("space", " "), ("tab", "\t"), ("lf", "\n"),
+    ("cr", "\r"), ("nbsp", "\u{a0}"), ("ideographic-space", "\u{3000}"), ("latin1", "é"), ("non-bmp", "\u{1F600}"), ("cdata-end", "]]>"),
+    ("amp-entity", "&amp;"), ("digit", "1"), ("bool-word", "TRUE"), ("error-word", "#N/A"),
+];
+pub const ERRORS: [&str; 7] = ["#DIV/0!", "#N/A", "#NAME?", "#NULL!", "#NUM!", "#REF!", "#VALUE!"];
+pub const POSITIONS: [&str; 9] = ["A1", "B1", "A2", "C3", "Z1", "AA1", "XFD1", "A1048576", "XFD1048576"];
+pub const FORMULAS: [&str; 12] = [
+    "1+1", "PI()", "A1", "SUM(A1:B2)", "\"x\"&\"y\"", "IF(1<2,\"a&b\",\"c\")", "1<>2", "A1>=B1", "$A$1*2", "Sheet1!A1", "TRUE", "\"a \"\" quote\"",
+];
+
+#[derive(Clone, Debug)]
+pub enum V {
+    Auto(String),
+    Str(String),
+    Num(f64),
+    Bool(bool),
+    Rich(Vec<(String, bool)>),
+    Formula(String, Option<String>),
 }
-fn replay(_tier: Tier, _case: &Value) -> Vec<Violation> {
-    vec![]
+
+impl V {
+    pub fn apply(&self, c: &mut Cell) {
+        match self {
+            V::Auto(s) => {
+                c.set_value(s.clone());
+            }
+            V::Str(s) => {
+                c.set_value_string(s.clone());
+            }
+            V::Num(x) => {
+                c.set_value_number(*x);
+            }
+            V::Bool(b) => {
+                c.set_value_bool(*b);
+            }
+            V::Rich(runs) => {
+                let mut rt = RichText::default();
+                for (t, bold) in runs {
+                    let mut e = TextElement::default();
+                    e.set_text(t.clone());
+                    if *bold {
+                        e.get_run_properties_mut().set_bold(true);
+                    }
+                    rt.add_rich_text_elements(e);
+                }
+                c.set_rich_text(rt);
+            }
+            V::Formula(f, cached) => {
+                c.set_formula(f.clone());
+                if let Some(v) = cached {
+                    c.set_formula_result_default(v.clone());
+                }
+            }
+        }
+    }
+    pub fn json(&self) -> Value {
+        match self {
+            V::Auto(s) => json!({"set_value": s}),
+            V::Str(s) => json!({"set_value_string": s}),
+            V::Num(x) => json!({"set_value_number": format!("{:e}", x), "bits": format!("{:016x}", x.to_bits())}),
+            V::Bool(b) => json!({"set_value_bool": b}),
+            V::Rich(r) => json!({"set_rich_text": r}),
+            V::Formula(f, c) => json!({"set_formula": f, "set_formula_result_default": c}),
+        }
+    }
+    pub fn tags(&self) -> Vec<String> {
+        fn text_tags(s: &str, out: &mut Vec<String>) {
+            if s.is_empty() {
+                out.push("t:empty".into());
+            }
+            for (n, a) in ATOMS.iter() {
+                if *n != "plain" && *n != "digit" && s.contains(a) {
+                    out.push(format!("t:{}", n));
+                }
+            }
+            if s.starts_with(|c: char| c.is_whitespace()) || s.ends_with(|c: char| c.is_whitespace()) {
+                out.push("t:edge-whitespace".into());
+            }
+        }
+        let mut t = vec![];
+        match self {
+            V::Auto(s) => {
+                t.push("auto".into());
+                text_tags(s, &mut t);
+            }
+            V::Str(s) => {
+                t.push("string".into());
+                text_tags(s, &mut t);
+            }
+            V::Num(x) => {
+                t.push("number".into());
+                if x.abs() >= 1e16 || (x.abs() < 1e-5 && *x != 0.0) {
+                    t.push("n:extreme-magnitude".into());
+                }
+            }
+            V::Bool(_) => t.push("bool".into()),
+            V::Rich(r) => {
+                t.push("rich".into());
+                for (s, _) in r {
+                    text_tags(s, &mut t);
+                }
+            }
+            V::Formula(f, c) => {
+                t.push("formula".into());
+                match c {
+                    None => t.push("f:no-cached".into()),
+                    Some(v) => {
+                        let up = v.to_uppercase();
+                        if v.is_empty() {
+                            t.push("f:cached-empty".into());
+                        } else if up == "TRUE" || up == "FALSE" {
+                            t.push("f:cached-bool".into());
+                        } else if ERRORS.contains(&up.as_str()) {
+                            t.push("f:cached-error".into());
+                        } else if v.parse::<f64>().is_ok() {
+                            t.push("f:cached-number".into());
+                        } else {
+                            t.push("f:cached-text".into());
+                            text_tags(v, &mut t);
+                        }
+                    }
+                }
+                if f.contains('"') {
+                    t.push("f:string-literal".into());
+                }
+                if f.contains('&') || f.contains('<') || f.contains('>') {
+                    t.push("f:xml-special".into());
+                }
+            }
+        }
+        t.sort();
+        t.dedup();
+        t
+    }
 }
-fn run(_ctx: &Ctx) -> i32 {
-    eprintln!("MACHINERY: C01 is not built yet");
-    2
+
+fn texts(max_atoms: usize) -> Vec<String> {
+    let mut v = vec![String::new()];
+    for (_, a) in ATOMS.iter() {
+        v.push(a.to_string());
+    }
+    if max_atoms >= 2 {
+        for (_, a) in ATOMS.iter() {
+            for (_, b) in ATOMS.iter() {
+                v.push(format!("{}{}", a, b));
+            }
+        }
+    }
+    if max_atoms >= 3 {
+        for (_, a) in ATOMS.iter() {
+            for (_, b) in ATOMS.iter() {
+                for (_, c) in ATOMS.iter() {
+                    v.push(format!("{}{}{}", a, b, c));
+                }
+            }
+        }
+    }
+    v
+}
+
+pub fn number_thresholds() -> Vec<f64> {
+    let mut v = vec![
+        0.0, -0.0, 1.0, -1.0, 0.1, 1.0 / 3.0, 2.0 / 3.0, 1e-7, 1e-5, 123456789.0, 0.30000000000000004, 1e15, 1e16, 1e17, 1e21, 1e22, 1e300, -1e300, f64::MAX, f64::MIN, f64::MIN_POSITIVE,
+        5e-324, 2.2250738585072009e-308, 9007199254740991.0, 9007199254740992.0, 9007199254740993.0, 4503599627370496.5, 1.7976931348623157e308, 123456789012345680.0, 0.000001, 1234.5678,
+        45435.0, 45435.5, 2958465.0, 1e-320, 3.141592653589793, 2.718281828459045, 1e10, 1e-10, 99999999999999.98,
+    ];
+    v.dedup_by(|a, b| a.to_bits() == b.to_bits());
+    v
+}
+
+/// single-cell value alphabet
+fn single_values(tier: Tier) -> Vec<V> {
+    let mut v = vec![];
+    let tx = texts(if tier == Tier::Thorough { 3 } else { 2 });
+    for t in &tx {
+        v.push(V::Str(t.clone()));
+    }
+    for t in texts(2) {
+        v.push(V::Auto(t));
+    }
+    for x in number_thresholds() {
+        v.push(V::Num(x));
+    }
+    v.push(V::Bool(true));
+    v.push(V::Bool(false));
+    for e in ERRORS {
+        v.push(V::Auto(e.to_string()));
+    }
+    for t in texts(1) {
+        v.push(V::Rich(vec![(t.clone(), true), ("tail".into(), false)]));
+        v.push(V::Rich(vec![("head".into(), false), (t.clone(), true)]));
+    }
+    v.push(V::Rich(vec![("only".into(), false)]));
+    let cached: Vec<Option<String>> = {
+        let mut c: Vec<Option<String>> = vec![None, Some("".into()), Some("1.5".into()), Some("-3".into()), Some("1e21".into()), Some("TRUE".into()), Some("FALSE".into()), Some("text".into()), Some(" padded ".into()), Some("a&b<c".into()), Some("line1\nline2".into())];
+        for e in ERRORS {
+            c.push(Some(e.to_string()));
+        }
+        c
+    };
+    for f in FORMULAS {
+        for c in &cached {
+            v.push(V::Formula(f.to_string(), c.clone()));
+        }
+    }
+    v
+}
+
+/// 70-value core for pairs
+fn core_values() -> Vec<V> {
+    let mut v = vec![];
+    for t in ["a", "b", " a", "a ", "A", "1", "1.0", "TRUE", "#N/A", "&", "<", "a&b", "\n", "a\nb", "é", "\u{1F600}", "", "&amp;", "a\tb", "\r"] {
+        v.push(V::Str(t.to_string()));
+    }
+    for t in ["a", "1", "1.50", "TRUE", "true", "#N/A", "abc", " a", "1e3", "0x10"] {
+        v.push(V::Auto(t.to_string()));
+    }
+    for x in [0.0, 1.0, 1.5, -3.0, 1e21, 0.1, 1.0 / 3.0, 9007199254740993.0] {
+        v.push(V::Num(x));
+    }
+    v.push(V::Bool(true));
+    v.push(V::Bool(false));
+    for t in ["a", "b", " a", "&", "a\nb"] {
+        v.push(V::Rich(vec![(t.to_string(), true)]));
+        v.push(V::Rich(vec![(t.to_string(), false)]));
+        v.push(V::Rich(vec![(t.to_string(), true), ("a".into(), false)]));
+    }
+    for (f, c) in [("1+1", Some("2")), ("1+1", None), ("A1", Some("a")), ("A1", Some("TRUE")), ("A1", Some("#N/A")), ("\"a\"&\"b\"", Some("ab")), ("1<2", Some("TRUE")), ("PI()", Some("3.141592653589793"))] {
+        v.push(V::Formula(f.to_string(), c.map(|s| s.to_string())));
+    }
+    for e in ["#DIV/0!", "#REF!"] {
+        v.push(V::Auto(e.to_string()));
+    }
+    v
+}
+
+fn core16() -> Vec<V> {
+    let c = core_values();
+    let idx = [0usize, 1, 2, 5, 7, 9, 16, 20, 21, 30, 32, 38, 40, 41, 53, 55];
+    idx.iter().filter_map(|i| c.get(*i).cloned()).collect()
+}
+
+// ------------------------------------------------------------------------------------------------
+/// The oracle: content projection before save == after reload.
+fn content(b: &Spreadsheet) -> Value {
+    book_p(b, Opts::CONTENT)
+}
+
+fn classify(path: &str, l: &str, r: &str) -> String {
+    // path like /sheets[0]/cells/R..C../field
+    let field = path.rsplit('/').next().unwrap_or("");
+    if l == "<absent>" {
+        return "cell-appeared".into();
+    }
+    if r == "<absent>" {
+        return if field.starts_with('R') { "cell-lost".into() } else { format!("{}-lost", field) };
+    }
+    match field {
+        "kind" => format!("kind:{}->{}", l.trim_matches('"'), r.trim_matches('"')),
+        "raw" => format!("raw:{}->{}", l.trim_matches('"'), r.trim_matches('"')),
+        "bits" => "number-bits-changed".into(),
+        "formula" => "formula-text-changed".into(),
+        "value" => {
+            let lu: String = serde_json::from_str(l).unwrap_or_default();
+            let ru: String = serde_json::from_str(r).unwrap_or_default();
+            if lu.trim() == ru.trim() {
+                "text-edge-whitespace-changed".into()
+            } else if lu.replace('\r', "") == ru.replace('\r', "") {
+                "text-cr-changed".into()
+            } else if lu.split_whitespace().collect::<Vec<_>>() == ru.split_whitespace().collect::<Vec<_>>() {
+                "text-inner-whitespace-changed".into()
+            } else {
+                "value-text-changed".into()
+            }
+        }
+        "text" | "font" => "rich-run-changed".into(),
+        _ => {
+            if path.contains("/runs") {
+                "rich-runs-changed".into()
+            } else {
+                format!("field:{}", field)
+            }
+        }
+    }
+}
+
+fn check_book(b: &Spreadsheet, light: bool, tags: &[String], case: &Value, sink: &mut Sink) {
+    let tg: Vec<&str> = tags.iter().map(|s| s.as_str()).collect();
+    let before = content(b);
+    sink.evaluations += 1;
+    match roundtrip(b, light) {
+        Err(e) => sink.violations.push(Violation::new("roundtrip-succeeds", &format!("failed:{}", panic_class(&e)), &tg, case.clone(), e)),
+        Ok((_bytes, b2)) => {
+            let after = content(&b2);
+            sink.hashes.push(fnv(after.to_string().as_bytes()));
+            // report every differing cell field class once
+            let mut a = before.clone();
+            let bb = after.clone();
+            let mut guard = 0;
+            let mut seen = std::collections::BTreeSet::new();
+            while let Some((path, l, r)) = first_diff(&a, &bb) {
+                let sym = classify(&path, &l, &r);
+                if seen.insert(sym.clone()) {
+                    sink.violations.push(Violation::new("content-equal", &sym, &tg, case.clone(), format!("{}: before {} after {}", path, l, r)));
+                }
+                // patch `a` at path so that the next difference is found
+                if !patch(&mut a, &bb, &path) {
+                    break;
+                }
+                guard += 1;
+                if guard > 50 {
+                    break;
+                }
+            }
+        }
+    }
+}
+
+/// Copy the value at `path` from `src` into `dst` (or remove it when absent in src).
+fn patch(dst: &mut Value, src: &Value, path: &str) -> bool {
+    fn steps(path: &str) -> Vec<String> {
+        let mut v = vec![];
+        for seg in path.split('/').filter(|s| !s.is_empty()) {
+            if let Some(p) = seg.find('[') {
+                v.push(seg[..p].to_string());
+                for idx in seg[p..].split('[').filter(|s| !s.is_empty()) {
+                    v.push(format!("#{}", idx.trim_end_matches(']')));
+                }
+            } else {
+                v.push(seg.to_string());
+            }
+        }
+        v
+    }
+    let st = steps(path);
+    fn get<'a>(v: &'a Value, st: &[String]) -> Option<&'a Value> {
+        let mut cur = v;
+        for s in st {
+            cur = if let Some(i) = s.strip_prefix('#') { cur.get(i.parse::<usize>().ok()?)? } else { cur.get(s.as_str())? };
+        }
+        Some(cur)
+    }
+    let newv = get(src, &st).cloned();
+    let (last, parent) = match st.split_last() {
+        Some(x) => x,
+        None => return false,
+    };
+    let mut cur = dst;
+    for s in parent {
+        let next = if let Some(i) = s.strip_prefix('#') { cur.get_mut(i.parse::<usize>().unwrap_or(0)) } else { cur.get_mut(s.as_str()) };
+        cur = match next {
+            Some(n) => n,
+            None => return false,
+        };
+    }
+    match (cur, newv) {
+        (Value::Object(m), Some(v)) => {
+            m.insert(last.clone(), v);
+            true
+        }
+        (Value::Object(m), None) => {
+            m.remove(last.as_str());
+            true
+        }
+        (Value::Array(a), Some(v)) => {
+            let i = last.trim_start_matches('#').parse::<usize>().unwrap_or(0);
+            if i < a.len() {
+                a[i] = v;
+            } else {
+                a.push(v);
+            }
+            true
+        }
+        (Value::Array(a), None) => {
+            let i = last.trim_start_matches('#').parse::<usize>().unwrap_or(0);
+            if i < a.len() {
+                a.truncate(i);
+            }
+            true
+        }
+        _ => false,
+    }
+}
+
+// ------------------------------------------------------------------------------------------------
+struct Singles {
+    values: Vec<V>,
+}
+impl Singles {
+    fn decode(&self, i: u64) -> (usize, usize, bool) {
+        let np = POSITIONS.len() as u64;
+        let vi = i / (np * 2);
+        let r = i % (np * 2);
+        (vi as usize, (r / 2) as usize, r % 2 == 1)
+    }
+}
+impl Space for Singles {
+    fn len(&self) -> u64 {
+        self.values.len() as u64 * POSITIONS.len() as u64 * 2
+    }
+    fn describe(&self, i: u64) -> Value {
+        let (v, p, l) = self.decode(i);
+        json!({"kind":"single","value": self.values[v].json(), "position": POSITIONS[p], "light": l})
+    }
+    fn tags(&self, i: u64) -> Vec<String> {
+        let (v, p, l) = self.decode(i);
+        let mut t = self.values[v].tags();
+        if p >= 4 {
+            t.push(format!("pos:{}", POSITIONS[p]));
+        }
+        if l {
+            t.push("light-writer".into());
+        }
+        t
+    }
+    fn run(&self, i: u64, sink: &mut Sink) {
+        let (v, p, l) = self.decode(i);
+        let mut b = new_file();
+        self.values[v].apply(b.get_sheet_mut(&0).unwrap().get_cell_mut(POSITIONS[p]));
+        check_book(&b, l, &self.tags(i), &self.describe(i), sink);
+    }
+}
+
+struct Pairs {
+    values: Vec<V>,
+}
+const LAYOUTS: [&str; 3] = ["same-row", "same-column", "two-sheets"];
+impl Pairs {
+    fn decode(&self, i: u64) -> (usize, usize, usize) {
+        let n = self.values.len() as u64;
+        let lay = i % 3;
+        let r = i / 3;
+        ((r / n) as usize, (r % n) as usize, lay as usize)
+    }
+}
+impl Space for Pairs {
+    fn len(&self) -> u64 {
+        (self.values.len() * self.values.len() * 3) as u64
+    }
+    fn describe(&self, i: u64) -> Value {
+        let (a, b, l) = self.decode(i);
+        json!({"kind":"pair","first": self.values[a].json(), "second": self.values[b].json(), "layout": LAYOUTS[l], "light": (a + b) % 2 == 1})
+    }
+    fn tags(&self, i: u64) -> Vec<String> {
+        let (a, b, l) = self.decode(i);
+        let mut t = self.values[a].tags();
+        t.extend(self.values[b].tags());
+        t.push(format!("layout:{}", LAYOUTS[l]));
+        t.sort();
+        t.dedup();
+        t
+    }
+    fn run(&self, i: u64, sink: &mut Sink) {
+        let (a, b, l) = self.decode(i);
+        let mut book = new_file();
+        match l {
+            0 => {
+                let ws = book.get_sheet_mut(&0).unwrap();
+                self.values[a].apply(ws.get_cell_mut("B2"));
+                self.values[b].apply(ws.get_cell_mut("D2"));
+            }
+            1 => {
+                let ws = book.get_sheet_mut(&0).unwrap();
+                self.values[a].apply(ws.get_cell_mut("B2"));
+                self.values[b].apply(ws.get_cell_mut("B5"));
+            }
+            _ => {
+                book.new_sheet("Second").unwrap();
+                self.values[a].apply(book.get_sheet_mut(&0).unwrap().get_cell_mut("B2"));
+                self.values[b].apply(book.get_sheet_mut(&1).unwrap().get_cell_mut("A1"));
+            }
+        }
+        check_book(&book, (a + b) % 2 == 1, &self.tags(i), &self.describe(i), sink);
+    }
+}
+
+struct Triples {
+    values: Vec<V>,
+}
+impl Space for Triples {
+    fn len(&self) -> u64 {
+        (self.values.len().pow(3)) as u64
+    }
+    fn describe(&self, i: u64) -> Value {
+        let n = self.values.len() as u64;
+        let (a, b, c) = ((i / (n * n)) as usize, ((i / n) % n) as usize, (i % n) as usize);
+        json!({"kind":"triple","values": [self.values[a].json(), self.values[b].json(), self.values[c].json()], "cells": ["A1","B1","A2"], "light": i % 2 == 1})
+    }
+    fn tags(&self, i: u64) -> Vec<String> {
+        let n = self.values.len() as u64;
+        let mut t = vec![];
+        for k in [(i / (n * n)) as usize, ((i / n) % n) as usize, (i % n) as usize] {
+            t.extend(self.values[k].tags());
+        }
+        t.sort();
+        t.dedup();
+        t
+    }
+    fn run(&self, i: u64, sink: &mut Sink) {
+        let n = self.values.len() as u64;
+        let (a, b, c) = ((i / (n * n)) as usize, ((i / n) % n) as usize, (i % n) as usize);
+        let mut book = new_file();
+        let ws = book.get_sheet_mut(&0).unwrap();
+        self.values[a].apply(ws.get_cell_mut("A1"));
+        self.values[b].apply(ws.get_cell_mut("B1"));
+        self.values[c].apply(ws.get_cell_mut("A2"));
+        check_book(&book, i % 2 == 1, &self.tags(i), &self.describe(i), sink);
+    }
+}
+
+/// number grid m*10^e, m in 1..=999, e in -20..=20; one workbook per (e, sign)
+struct Grid;
+impl Space for Grid {
+    fn len(&self) -> u64 {
+        41 * 2
+    }
+    fn describe(&self, i: u64) -> Value {
+        json!({"kind":"number-grid","exponent": (i / 2) as i64 - 20, "negative": i % 2 == 1, "mantissas": "1..=999"})
+    }
+    fn tags(&self, _i: u64) -> Vec<String> {
+        vec!["number".into(), "number-grid".into()]
+    }
+    fn run(&self, i: u64, sink: &mut Sink) {
+        let e = (i / 2) as i32 - 20;
+        let neg = i % 2 == 1;
+        let mut book = new_file();
+        let ws = book.get_sheet_mut(&0).unwrap();
+        for m in 1..=999u32 {
+            // the f64 whose shortest representation is "<m>e<e>"
+            let x: f64 = format!("{}{}e{}", if neg { "-" } else { "" }, m, e).parse().unwrap();
+            ws.get_cell_mut((1 + (m % 10), 1 + m / 10)).set_value_number(x);
+        }
+        sink.evaluations += 998;
+        check_book(&book, i % 3 == 0, &self.tags(i), &self.describe(i), sink);
+    }
+}
+
+pub fn space(tier: Tier, id: &str) -> Option<Box<dyn Space>> {
+    match id {
+        "singles" => Some(Box::new(Singles { values: single_values(tier) })),
+        "pairs" => Some(Box::new(Pairs { values: core_values() })),
+        "triples" => Some(Box::new(Triples { values: core16() })),
+        "grid" => Some(Box::new(Grid)),
+        _ => None,
+    }
+}
+
+fn replay(tier: Tier, case: &Value) -> Vec<Violation> {
+    replay_e1(space(tier, case["_space"].as_str().unwrap_or("")), case)
+}
+
+fn run(ctx: &Ctx) -> i32 {
+    let ids: Vec<&'static str> = if ctx.tier == Tier::Thorough { vec!["singles", "pairs", "triples", "grid"] } else { vec!["singles", "pairs", "grid"] };
+    let spaces = ids.iter().map(|id| (*id, space(ctx.tier, id).unwrap())).collect();
+    run_e1(
+        ctx,
+        E1Spec {
+            spaces,
+            cfg: PoolCfg { chunk: 64, case_timeout: std::time::Duration::from_secs(60), ..Default::default() },
+            level: "exploration",
+            rule: "every workbook of: (singles) each value of the value alphabet x 9 positions x both writers; (pairs) every ordered pair of the 70-value core in 3 layouts (same row, same column, two sheets); (triples, thorough) every ordered triple of a 16-value core; (grid) every m*10^e, m=1..999, e=-20..20, both signs. Oracle: content projection (cell set, value text, kind, raw variant, f64 bits, rich runs, formula text) before save == after reload. distinct_nontrivial = distinct reloaded content dumps".into(),
+            alphabets: json!({"text_atoms": ATOMS.iter().map(|a| a.0).collect::<Vec<_>>(), "single_values": single_values(ctx.tier).len(), "positions": POSITIONS, "core_values": core_values().len(), "core16": core16().len(), "formulas": FORMULAS, "errors": ERRORS, "number_thresholds": number_thresholds().len()}),
+            bounds: json!({"text_atoms_max": if ctx.tier == Tier::Thorough {3} else {2}, "cells_per_workbook": "1 (singles), 2 (pairs), 3 (triples), 999 (grid)"}),
+            exhaustive: true,
+            caps_hit: vec![],
+            assumptions: vec!["set_value_lazy is outside the alphabet (a lazy cell has no defined kind before it is resolved)".into(), "blank unstyled cells may vanish (statement: non-blank cells)".into()],
+            min_distinct: 100,
+        },
+    )
 }
